@@ -128,9 +128,86 @@ Proof.
   - subst e'. inversion Hi; subst. eexists. split; [reflexivity|exact HR].
 Qed.
 
+Lemma Rit_chain2 : forall h a b ia ib, Rit h a ia -> Rit h b ib -> Rit h (lappend a b) (IChain ia ib).
+Proof.
+  intros h a b ia ib [Wa Ha] [Wb Hb]. split; [cbn [wfI]; split; assumption|].
+  cbn [absL]. eapply leq_trans; [apply lappend_leq_l; exact Ha|]. apply lappend_leq_r. exact Hb.
+Qed.
+
+Lemma Rit_chain : forall h ss its, Forall2 (Rit h) ss its -> ss <> [] -> Rit h (lchain ss) (chain_of its).
+Proof.
+  intros h ss its HF Hne. destruct HF as [|a ia rs ri Ha HF]; [congruence|]. clear Hne.
+  unfold lchain, chain_of. revert a ia Ha. induction HF as [|b ib rs ri Hb HF IH]; intros a ia Ha; cbn [fold_left].
+  - exact Ha.
+  - apply IH. apply Rit_chain2; assumption.
+Qed.
+
+Lemma igather_simL : forall args h os st, RL (IS h os) st ->
+  match igather (IS h os) args, gather st args with
+  | inl (IS h' os', its), inl (st', ss) =>
+      h' = h /\ RL (IS h os') st' /\ length os' = length os /\ Forall2 (Rit h) ss its
+  | inr (ist', ob), inr (st', ob') => ob = ob' /\ RL ist' st'
+  | _, _ => False
+  end.
+Proof.
+  induction args as [|a args IH]; intros h os st HR; cbn [igather gather].
+  - refine (conj eq_refl (conj HR (conj eq_refl _))). constructor.
+  - destruct a as [j|l].
+    + pose proof (igive_simL h os st j HR) as Hg.
+      destruct (igive (IS h os) j) as [[[[h1 os1] it]|]|e], (give st j) as [[[st1 s]|]|e']; try contradiction.
+      * destruct Hg as (-> & HR1 & Hlen & Hr). specialize (IH h os1 st1 HR1).
+        destruct (igather (IS h os1) args) as [[[h2 os2] its]|[ist2 ob2]],
+                 (gather st1 args) as [[st2 ss]|[st2 ob2']]; try contradiction.
+        -- destruct IH as (-> & HR2 & Hlen2 & HF). refine (conj eq_refl (conj HR2 (conj _ _))); [congruence|].
+           constructor; assumption.
+        -- exact IH.
+      * split; [reflexivity|exact HR].
+      * subst e'. split; [reflexivity|exact HR].
+    + specialize (IH h os st HR).
+      destruct (igather (IS h os) args) as [[[h2 os2] its]|[ist2 ob2]],
+               (gather st args) as [[st2 ss]|[st2 ob2']]; try contradiction.
+      * destruct IH as (-> & HR2 & Hlen2 & HF). refine (conj eq_refl (conj HR2 (conj Hlen2 _))). constructor; [|exact HF].
+        split; [exact I|apply leq_refl].
+      * exact IH.
+Qed.
+
+Lemma gather_nonempty : forall st a r st' ss, gather st (a :: r) = inl (st', ss) -> ss <> [].
+Proof.
+  intros st a r st' ss H. cbn [gather] in H. destruct a as [j|l].
+  - destruct (give st j) as [[[st1 s]|]|e]; try discriminate.
+    destruct (gather st1 r) as [[st2 ss2]|e2]; inversion H; subst; discriminate.
+  - destruct (gather st r) as [[st2 ss2]|e2]; inversion H; subst; discriminate.
+Qed.
+
+Lemma simL_multi : forall fuel h os st tgt args, RL (IS h os) st -> sim_goalL fuel h os st (OMulti tgt args).
+Proof.
+  intros fuel h os st tgt args HR ist' ob Hi Hob. pose proof (RL_length _ _ _ HR) as Hlen0.
+  cbn [istep step i_objs] in *.
+  destruct args as [|a [|b args]]; try (inversion Hi; subst; eexists; split; [reflexivity|exact HR]).
+  pose proof (igather_simL (a :: b :: args) h os st HR) as Hg.
+  destruct tgt as [i|].
+  - pose proof (RL_lookup h os st i HR) as Hl.
+    destruct (nth_error os i) as [[it|its|]|], (nth_error st i) as [[s|s u|]|]; cbn in Hl; try contradiction;
+      try (inversion Hi; subst; eexists; split; [reflexivity|exact HR]).
+    destruct (igather (IS h os) (a :: b :: args)) as [[[h1 os1] its]|[ist1 ob1]],
+             (gather st (a :: b :: args)) as [[st1 ss]|[st1 ob1']] eqn:Eg; try contradiction.
+    + destruct Hg as (-> & HR1 & Hlen & HF).
+      assert (Hne : ss <> []) by (eapply gather_nonempty; eauto).
+      eapply iapply_simL; [apply (tcorrL_append_obj h _ _ (Rit_chain h ss its HF Hne))|exact HR1|exact Hi].
+    + destruct Hg as [-> HR1]. inversion Hi; subst. eexists. split; [reflexivity|exact HR1].
+  - destruct (igather (IS h os) (a :: b :: args)) as [[[h1 os1] its]|[ist1 ob1]],
+             (gather st (a :: b :: args)) as [[st1 ss]|[st1 ob1']] eqn:Eg; try contradiction.
+    + destruct Hg as (-> & HR1 & Hlen & HF). inversion Hi; subst; clear Hi.
+      assert (Hne : ss <> []) by (eapply gather_nonempty; eauto).
+      eexists. split; [rewrite Hlen0; reflexivity|].
+      apply (RL_pres_app h h); [exact HR1|apply presL_refl; apply HR|]. constructor; [|constructor].
+      exact (Rit_chain h ss its HF Hne).
+    + destruct Hg as [-> HR1]. inversion Hi; subst. eexists. split; [reflexivity|exact HR1].
+Qed.
+
 Lemma step_simL : forall fuel h os st o, RL (IS h os) st -> sim_goalL fuel h os st o.
 Proof.
-  intros fuel h os st o HR. destruct o as [i|i c|i c|i c|i c|i|i p|i f|i p|i n|i|i n|z n|z n|i j|m|e].
+  intros fuel h os st o HR. destruct o as [i|i c|i c|i c|i c|i|i p|i f|i p|i n|i|i n|z n|z n|i j|m|e|tgt args].
   - apply simL_next; exact HR.
   - apply simL_take; exact HR.
   - apply simL_peek; exact HR.
@@ -148,6 +225,7 @@ Proof.
   - apply simL_appendobj; exact HR.
   - intros ist' ob Hi _. cbn in *. inversion Hi; subst. eexists. split; [reflexivity|exact HR].
   - intros ist' ob Hi _. cbn in *. inversion Hi; subst. eexists. split; [reflexivity|exact HR].
+  - apply simL_multi; exact HR.
 Qed.
 
 Lemma run_simL : forall fuel ops ist st, RL ist st ->
